@@ -49,6 +49,7 @@ type caseRun struct {
 	hitRBytes      []byte // that response packed as it stood
 	hitUpOptNonNil bool   // UpstreamOpt() != nil while a cached response was installed
 	termErr        string
+	injectedFg     bool // $inject appended an OPT to R() in the foreground execution
 }
 
 func (cr *caseRun) addUp(e upEvent) {
@@ -156,6 +157,46 @@ func (t *term) Exec(ctx context.Context, qCtx *query_context.Context) error {
 	return nil
 }
 
+// inject sits right after the terminal. Plugins may edit R() in place; this one
+// appends an OPT record with a distinctive TTL field and options to
+// R().Extra, so that everything that runs afterwards (post-terminal ttl, the
+// cache's store on the way back, the lazy-update store) meets an OPT inside
+// R() without any malformed upstream being involved.
+type inject struct{ cr *chainRun }
+
+func (p *inject) Exec(ctx context.Context, qCtx *query_context.Context) error {
+	run, _ := ctx.Value(ctxKey{}).(*caseRun)
+	fg := run != nil
+	if run == nil {
+		p.cr.idmu.Lock()
+		run = p.cr.byCtx[qCtx.Id()]
+		p.cr.idmu.Unlock()
+	}
+	r := qCtx.R()
+	if run == nil || run.c.Inject == nil || r == nil {
+		return nil
+	}
+	spec := run.c.Inject
+	opt := new(dns.OPT)
+	opt.Hdr.Name = "."
+	opt.Hdr.Rrtype = dns.TypeOPT
+	opt.Hdr.Class = spec.Size
+	opt.Hdr.Ttl = spec.ttl()
+	for _, o := range spec.Options {
+		opt.Option = append(opt.Option, &dns.EDNS0_LOCAL{Code: o.Code, Data: append([]byte(nil), o.Data...)})
+	}
+	r.Extra = append(r.Extra, opt)
+	rep.Count("harness_injected_opts", 1)
+	if fg {
+		run.mu.Lock()
+		run.injectedFg = true
+		run.mu.Unlock()
+	} else {
+		rep.Count("harness_injected_opts_in_lazy_update", 1)
+	}
+	return nil
+}
+
 func (cr *chainRun) serveUDP() {
 	defer cr.wg.Done()
 	buf := make([]byte, 65535)
@@ -207,6 +248,7 @@ func buildChain(desc *chainDesc) (*chainRun, error) {
 	cr.m = coremain.NewTestMosdnsWithPlugins(plugins)
 	plugins["probe"] = &probe{cr: cr}
 	plugins["term"] = &term{cr: cr, mode: desc.TermMode}
+	plugins["inject"] = &inject{cr: cr}
 
 	newPlugin := func(typ, tag string, fill func(args any)) (any, error) {
 		info, ok := coremain.GetPluginType(typ)
@@ -305,6 +347,9 @@ func buildChain(desc *chainDesc) (*chainRun, error) {
 		}
 	} else {
 		rules = append(rules, sequence.RuleArgs{Exec: "$term"})
+	}
+	if desc.Inject {
+		rules = append(rules, sequence.RuleArgs{Exec: "$inject"})
 	}
 	for i := range desc.Post {
 		if err := doElem(&desc.Post[i]); err != nil {
